@@ -144,7 +144,9 @@ def _copy_content(content_object):
     :return: A `content.Content` instance with the same mime-type as
         ``content_object`` and a non-volatile copy of its content.
     """
-    content_bytes = list(content_object.iter_bytes())
+    # Copy the chunks themselves, not only the list: a source may hand out
+    # its own mutable buffers (bytearrays).
+    content_bytes = [bytes(chunk) for chunk in content_object.iter_bytes()]
 
     def content_callback():
         return content_bytes
